@@ -223,6 +223,12 @@ func derivesFrom(v ssa.Value, pred func(ssa.Value) bool) bool {
 					return true
 				}
 			}
+		case *ssa.Alloc:
+			for _, r := range refs(x) {
+				if st, ok := r.(*ssa.Store); ok && st.Addr == ssa.Value(x) && walk(st.Val, d+1) {
+					return true
+				}
+			}
 		case *ssa.UnOp:
 			if x.Op == token.MUL {
 				if al, ok := x.X.(*ssa.Alloc); ok {
